@@ -341,6 +341,19 @@ std::vector<Stmt> gen_routine_body(GenCtx &c, int maxn) {
     body.insert(body.begin(), init.begin(), init.end());
   }
   if (c.nlabels) place_labels(c, body);
+  if (c.gp.loop_back_head > 0 && c.gp.allow_jumps && !c.gp.loop_only_bias && (int)c.rng.below(100) < c.gp.loop_back_head) {
+    // h: k := k + 1 ; <0-2 statements> ; IF k = K THEN GOTO e ; GOTO h ; e: k := k + 0   - at the very start of the body
+    std::string tag = std::to_string(c.routine + 1) + "_" + std::to_string(c.jl_serial++);
+    std::string k = "k" + tag, h = "h" + tag, e = "e" + tag;
+    std::vector<Stmt> pat;
+    { Stmt a; a.k = Stmt::ASSIGN; a.var = k; a.val.k = Val::ADD; a.val.var = k; a.val.c = 1; a.labels.push_back(h); pat.push_back(a); }
+    int mid = (int)c.rng.below(3);
+    for (int i = 0; i < mid; i++) { Stmt a; a.k = Stmt::ASSIGN; a.var = pick_var(c); a.val.k = c.rng.chance(1, 2) ? Val::ADD : Val::SUB; a.val.var = pick_var(c); a.val.c = c.rng.range(0, 3); pat.push_back(a); }
+    { Stmt j; j.k = Stmt::IF; j.var = k; j.c = c.rng.range(2, 4); j.target = e; pat.push_back(j); }
+    { Stmt j; j.k = Stmt::GOTO; j.target = h; pat.push_back(j); }
+    { Stmt a; a.k = Stmt::ASSIGN; a.var = k; a.val.k = Val::ADD; a.val.var = k; a.val.c = 0; a.labels.push_back(e); pat.push_back(a); }
+    body.insert(body.begin(), pat.begin(), pat.end());
+  }
   return body;
 }
 
@@ -725,7 +738,7 @@ void render(Project &p) {
   // shared routine files
   int nshared = 0;
   for (auto &sf : share_first) {
-    std::string fname = "shared" + std::to_string(sf.first) + ".theo";
+    std::string fname = p.layout.naming == 1 ? "main.theo.s" + std::to_string(sf.first) : "shared" + std::to_string(sf.first) + ".theo";
     for (size_t i = 0; i < p.ast.defs.size(); i++)
       if (p.ast.defs[i].share == sf.first && same_text(T, routine_range[i].first, routine_range[i].second, sf.second.first, sf.second.second))
         rd.segs.push_back({routine_range[i].first, routine_range[i].second, fname});
@@ -743,7 +756,7 @@ void render(Project &p) {
     if (!all_same) continue;
     for (auto &r : ss.second) {
       for (size_t k = 0; k < r.second - r.first; k++) T[r.first + k].text = T[f0.first + k].text;
-      rd.segs.push_back({r.first, r.second, "stmt" + std::to_string(ss.first) + ".theo"});
+      rd.segs.push_back({r.first, r.second, p.layout.naming == 1 ? "main.theo.s" + std::to_string(ss.first) + "t" : "stmt" + std::to_string(ss.first) + ".theo"});
     }
     nshared++;
   }
@@ -754,7 +767,7 @@ void render(Project &p) {
       bool disjoint = b <= s.a || s.b <= a;
       bool inside = s.a <= a && b <= s.b && !(s.a == a && s.b == b);
       bool contains = a <= s.a && s.b <= b && !(s.a == a && s.b == b);
-      if ((s.file.rfind("shared", 0) == 0 || s.file.rfind("stmt", 0) == 0) && !disjoint && !contains) return true;  // nothing is carved out of a shared file
+      if ((s.file.rfind("shared", 0) == 0 || s.file.rfind("stmt", 0) == 0 || s.file.rfind("main.theo.s", 0) == 0) && !disjoint && !contains) return true;  // nothing is carved out of a shared file
       if (!(disjoint || inside || contains)) return true;
     }
     return false;
@@ -775,7 +788,9 @@ void render(Project &p) {
       if (a == 0 && b >= T.size()) continue;
     }
     if (overlaps_badly(a, b)) continue;
-    rd.segs.push_back({a, b, "inc" + std::to_string(f + 1) + ".theo"});
+    std::string chain;   // naming 1: main.theo.1, main.theo.12, main.theo.123: every name is a prefix of the next
+    for (int d = 1; d <= f + 1; d++) chain += (char)('0' + d % 10);
+    rd.segs.push_back({a, b, p.layout.naming == 1 ? "main.theo." + chain : "inc" + std::to_string(f + 1) + ".theo"});
     f++;
   }
   p.main = "main.theo";
@@ -897,6 +912,7 @@ Json project_to_json(const Project &p) {
     j.set("ast", ast_to_json(p.ast));
     Json l = Json::obj();
     l.set("style", p.layout.style).set("seed", (long long)p.layout.seed).set("nfiles", p.layout.nfiles).set("spelling", p.layout.spelling);
+    if (p.layout.naming) l.set("naming", p.layout.naming);
     j.set("layout", l);
   }
   return j;
@@ -908,7 +924,7 @@ Project project_from_json(const Json &j) {
     p.has_ast = true;
     p.ast = ast_from_json(j.at("ast"));
     const Json &l = j.at("layout");
-    p.layout.style = (int)l.num("style"); p.layout.seed = (uint64_t)l.num("seed"); p.layout.nfiles = (int)l.num("nfiles"); p.layout.spelling = (int)l.num("spelling");
+    p.layout.style = (int)l.num("style"); p.layout.seed = (uint64_t)l.num("seed"); p.layout.nfiles = (int)l.num("nfiles"); p.layout.spelling = (int)l.num("spelling"); p.layout.naming = (int)l.num("naming");
     render(p);
   } else {
     for (auto &kv : j.at("files").o) p.files[kv.first] = kv.second.s;
